@@ -332,6 +332,31 @@ generated `calculateDerived` reads uses key names of the default configuration o
 theorem default_read_paths_known :
     ∀ p ∈ readPaths, ∀ k ∈ p, k ∈ allKeys (Gen.defaultCfg : Cfg ℝ) := by decide
 
+/-- **run level, generated default, unknown keys**: for the GENERATED default tree and the GENERATED
+`calculateDerived`, the whole load `calculateDerived(path)` of a custom file equals that of the file with
+every unknown key name removed — same constants or same exception; `hK` is discharged. -/
+theorem unknown_keys_inert_default (us : List (String × Cfg ℝ)) (hw : WF (.node us))
+    (hmis : Sub (prune (allKeys (Gen.defaultCfg : Cfg ℝ)) (.node us)) Gen.defaultCfg) :
+    calculateDerivedFile Gen.defaultCfg (some (.node us)) =
+      calculateDerivedFile Gen.defaultCfg (some (prune (allKeys (Gen.defaultCfg : Cfg ℝ)) (.node us))) :=
+  unknown_keys_inert_file Gen.defaultCfg us hw hmis default_read_paths_known
+
+/-- **run level, generated default, overrides exactly the entries it names**: the constants (or the
+exception) of `calculateDerived(path)` are those of the generated `calculateDerived` on a tree in which
+EVERY scalar entry `p` of the generated default is the custom file's entry when the file (unknown names
+removed) defines `p`, and the default's entry otherwise. -/
+theorem layering_exact_default (us : List (String × Cfg ℝ)) (hw : WF (.node us))
+    (hmis : Sub (prune (allKeys (Gen.defaultCfg : Cfg ℝ)) (.node us)) Gen.defaultCfg) :
+    calculateDerivedFile Gen.defaultCfg (some (.node us)) =
+      Gen.calculateDerived (update Gen.defaultCfg (prune (allKeys (Gen.defaultCfg : Cfg ℝ)) (.node us))) ∧
+    ∀ (p : List String) (x : Val ℝ), get? (Gen.defaultCfg : Cfg ℝ) p = some (.leaf x) →
+      get? (update Gen.defaultCfg (prune (allKeys (Gen.defaultCfg : Cfg ℝ)) (.node us))) p =
+        some ((get? (prune (allKeys (Gen.defaultCfg : Cfg ℝ)) (.node us)) p).getD (.leaf x)) := by
+  refine ⟨?_, fun p x hd => update_lookup _ _ (wf_prune _ _ hw) hmis p x hd⟩
+  have h1 := partial_file_loads Gen.defaultCfg us hw hmis
+  simp only [calculateDerivedFile, h1]
+  exact unknown_keys_inert Gen.defaultCfg (.node us) hw default_read_paths_known
+
 def isOkB {ε β} : Except ε β → Bool
   | .ok _ => true
   | .error _ => false
